@@ -17,7 +17,11 @@ import (
 	"go/token"
 	"os"
 	"path/filepath"
+	"reflect"
+	"runtime"
 	"strings"
+
+	"github.com/crossplane/crossplane-runtime/pkg/resource"
 
 	"github.com/crossplane/crossplane/internal/controller/apiextensions/claim"
 	"github.com/crossplane/crossplane/internal/features"
@@ -93,6 +97,122 @@ func c06Skeleton(file, recvType, name string) ([]string, error) {
 	return nil, fmt.Errorf("method %s.%s not found in %s", recvType, name, file)
 }
 
+// c06SourceOf: the file a function of a dependency was COMPILED from (the module cache copy that is
+// linked into this binary), so that skeletons of crossplane-runtime helpers the model mirrors are read
+// from the code that actually runs.
+func c06SourceOf(fn any) string {
+	f := runtime.FuncForPC(reflect.ValueOf(fn).Pointer())
+	if f == nil {
+		return ""
+	}
+	file, _ := f.FileLine(f.Entry())
+	return file
+}
+
+// c06Wiring lists, in source order, the `claim.With…(claim.New…(…))` reconciler options that
+// offered/reconciler.go appends inside `if …Features.Enabled(features.<flag>) { … }`.
+func c06Wiring(file, flag string) ([]string, error) {
+	fset := token.NewFileSet()
+	f, err := parser.ParseFile(fset, file, nil, 0)
+	if err != nil {
+		return nil, err
+	}
+	out := []string{}
+	found := false
+	ast.Inspect(f, func(n ast.Node) bool {
+		is, ok := n.(*ast.IfStmt)
+		if !ok {
+			return true
+		}
+		ce, ok := is.Cond.(*ast.CallExpr)
+		if !ok || len(ce.Args) != 1 {
+			return true
+		}
+		if sel, ok := ce.Fun.(*ast.SelectorExpr); !ok || sel.Sel.Name != "Enabled" {
+			return true
+		}
+		arg, ok := ce.Args[0].(*ast.SelectorExpr)
+		if !ok || arg.Sel.Name != flag {
+			return true
+		}
+		found = true
+		ast.Inspect(is.Body, func(m ast.Node) bool {
+			c, ok := m.(*ast.CallExpr)
+			if !ok {
+				return true
+			}
+			sel, ok := c.Fun.(*ast.SelectorExpr)
+			if !ok || !strings.HasPrefix(sel.Sel.Name, "With") {
+				return true
+			}
+			if x, ok := sel.X.(*ast.Ident); !ok || x.Name != "claim" {
+				return true
+			}
+			arg := "?"
+			if len(c.Args) == 1 {
+				if ac, ok := c.Args[0].(*ast.CallExpr); ok {
+					if as, ok := ac.Fun.(*ast.SelectorExpr); ok {
+						arg = as.Sel.Name
+					}
+				}
+			}
+			out = append(out, sel.Sel.Name+":"+arg)
+			return true
+		})
+		return false
+	})
+	if !found {
+		return nil, fmt.Errorf("no `if ….Enabled(features.%s)` in %s", flag, file)
+	}
+	return out, nil
+}
+
+// c06Defaults lists the `field: value` pairs of the literals in defaultCRComposite and claim.NewReconciler for the
+// fields the model depends on (the syncer and upgrader used when no option overrides them).
+func c06Defaults(file string) ([]string, error) {
+	fset := token.NewFileSet()
+	f, err := parser.ParseFile(fset, file, nil, 0)
+	if err != nil {
+		return nil, err
+	}
+	out := []string{}
+	for _, d := range f.Decls {
+		fd, ok := d.(*ast.FuncDecl)
+		if !ok || (fd.Name.Name != "NewReconciler" && fd.Name.Name != "defaultCRComposite") || fd.Body == nil {
+			continue
+		}
+		ast.Inspect(fd.Body, func(n ast.Node) bool {
+			kv, ok := n.(*ast.KeyValueExpr)
+			if !ok {
+				return true
+			}
+			k, ok := kv.Key.(*ast.Ident)
+			if !ok || (k.Name != "managedFields" && k.Name != "composite" && k.Name != "CompositeSyncer") {
+				return true
+			}
+			v := "?"
+			switch t := kv.Value.(type) {
+			case *ast.CallExpr:
+				if id, ok := t.Fun.(*ast.Ident); ok {
+					v = id.Name
+				}
+			case *ast.UnaryExpr:
+				if cl, ok := t.X.(*ast.CompositeLit); ok {
+					if id, ok := cl.Type.(*ast.Ident); ok {
+						v = id.Name
+					}
+				}
+			}
+			out = append(out, k.Name+":"+v)
+			return true
+		})
+	}
+	if len(out) == 0 {
+		return nil, fmt.Errorf("NewReconciler / defaultCRComposite literals not found in %s", file)
+	}
+	return out, nil
+}
+
 func init() {
 	RegisterDump("C06", func() string {
 		repo := os.Getenv("VERIF_REPO")
@@ -114,6 +234,22 @@ func init() {
 		emit("c06SkelUpgrade", filepath.Join(dir, "syncer_ssa.go"), "PatchingManagedFieldsUpgrader", "Upgrade")
 		emit("c06SkelCsaSync", filepath.Join(dir, "syncer_csa.go"), "ClientSideCompositeSyncer", "Sync")
 		emit("c06SkelGenerateName", filepath.Join(repo, "internal", "names", "generate.go"), "nameGenerator", "GenerateName")
+		// crossplane-runtime helpers the model mirrors call by call (csaApply, bindPath's AddFinalizer, finalizeClaim),
+		// read from the module source this binary was compiled from
+		api := c06SourceOf(resource.NewAPIPatchingApplicator)
+		emit("c06SkelApply", api, "APIPatchingApplicator", "Apply")
+		emit("c06SkelAddFinalizer", api, "APIFinalizer", "AddFinalizer")
+		emit("c06SkelRemoveFinalizer", api, "APIFinalizer", "RemoveFinalizer")
+		list := func(lean, doc string, l []string, err error) {
+			if err != nil {
+				l = []string{"EXTRACTION FAILED: " + err.Error()}
+			}
+			fmt.Fprintf(&sb, "/-- %s -/\ndef %s : List String := %s\n", doc, lean, leanStrList(l))
+		}
+		w, err := c06Wiring(filepath.Join(repo, "internal", "controller", "apiextensions", "offered", "reconciler.go"), "EnableBetaClaimSSA")
+		list("c06WiringSSA", "claim reconciler options offered/reconciler.go adds under features.EnableBetaClaimSSA", w, err)
+		dflt, err := c06Defaults(filepath.Join(dir, "reconciler.go"))
+		list("c06WiringDefault", "claim.NewReconciler's default syncer and managed-fields upgrader", dflt, err)
 		fmt.Fprintf(&sb, "def c06FieldOwnerXR : String := %s\n", leanStr(claim.FieldOwnerXR))
 		fmt.Fprintf(&sb, "def c06FlagClaimSSA : String := %s\n", leanStr(string(features.EnableBetaClaimSSA)))
 		return sb.String()
